@@ -2,6 +2,7 @@
 mod driver;
 mod fam_sel;
 mod fam_stack;
+mod fam_xo;
 mod prims;
 mod report;
 mod rng;
@@ -40,6 +41,8 @@ fn main() {
     let rep = match fam.as_str() {
         "stack" => fam_stack::run(&cfg),
         "sel" => fam_sel::run(&cfg),
+        "xo" => fam_xo::run(&cfg),
+        "xo-selftest" => fam_xo::selftest(&cfg),
         f => { eprintln!("unknown family {f}"); std::process::exit(2) }
     };
     let js = serde_json::to_string_pretty(&rep.to_json()).unwrap();
